@@ -59,4 +59,38 @@ spec printsInjectively(a, b *token.Token) bool :=
 lemma L_ord_trichotomy_rel [C20]: forall a, b *token.Token :: wfTok(a) && wfTok(b) && printsInjectively(a, b) ==> (tokEq(a, b) <==> (!tokLess(a, b) && !tokLess(b, a)))
 lemma L_ord_congruence_l [C20]: forall a, b, c *token.Token :: wfTok(a) && wfTok(b) && wfTok(c) && tokEq(a, b) && tokLess(b, c) ==> tokLess(a, c)
 lemma L_ord_congruence_r [C20]: forall a, b, c *token.Token :: wfTok(a) && wfTok(b) && wfTok(c) && tokLess(a, b) && tokEq(b, c) ==> tokLess(a, c)
+
+// ---- candidate order of matched aliases (C09) and its lawfulness as a sort order (C16) ----
+
+// number of reference / generic parameters of an alias' parameter map (the fold computed by countRefAndGenericArgs)
+spec refCount(params map[string]ddptypes.ParameterType) int
+spec genCount(params map[string]ddptypes.ParameterType) int
+
+// from the C09 statement: longer first; on equal length fewer generic parameters first; then more references first
+spec aliasBefore(len1, gen1, ref1, len2, gen2, ref2 int) bool :=
+  len1 != len2 ? len1 > len2 : (gen1 != gen2 ? gen1 < gen2 : ref1 > ref2)
+
+func sortAliases$1$1
+  returns refs, gen
+  trusted
+  modifies nothing
+  ensures refs == refCount(params) && gen == genCount(params)
+
+func sortAliases$1 [C09, C16]
+  requires 0 <= i && i < len(matchedAliases) && 0 <= j && j < len(matchedAliases)
+  ensures result == aliasBefore(
+             len(matchedAliases[i].GetTokens()), genCount(matchedAliases[i].GetArgs()), refCount(matchedAliases[i].GetArgs()),
+             len(matchedAliases[j].GetTokens()), genCount(matchedAliases[j].GetArgs()), refCount(matchedAliases[j].GetArgs()))
+
+lemma L_alias_order_irreflexive [C09, C16]: forall l, g, r int :: !aliasBefore(l, g, r, l, g, r)
+lemma L_alias_order_asymmetric [C09, C16]: forall l1, g1, r1, l2, g2, r2 int :: !(aliasBefore(l1, g1, r1, l2, g2, r2) && aliasBefore(l2, g2, r2, l1, g1, r1))
+lemma L_alias_order_transitive [C09, C16]: forall l1, g1, r1, l2, g2, r2, l3, g3, r3 int ::
+  aliasBefore(l1, g1, r1, l2, g2, r2) && aliasBefore(l2, g2, r2, l3, g3, r3) ==> aliasBefore(l1, g1, r1, l3, g3, r3)
+lemma L_alias_order_incomparable_transitive [C09, C16]: forall l1, g1, r1, l2, g2, r2, l3, g3, r3 int ::
+  !aliasBefore(l1, g1, r1, l2, g2, r2) && !aliasBefore(l2, g2, r2, l1, g1, r1) &&
+  !aliasBefore(l2, g2, r2, l3, g3, r3) && !aliasBefore(l3, g3, r3, l2, g2, r2)
+  ==> !aliasBefore(l1, g1, r1, l3, g3, r3) && !aliasBefore(l3, g3, r3, l1, g1, r1)
+lemma L_alias_order_longest_first [C09]: forall l1, g1, r1, l2, g2, r2 int :: l1 > l2 ==> aliasBefore(l1, g1, r1, l2, g2, r2)
+lemma L_alias_order_concrete_first [C09]: forall l, g1, r1, g2, r2 int :: g1 < g2 ==> aliasBefore(l, g1, r1, l, g2, r2)
+lemma L_alias_order_refs_first [C09]: forall l, g, r1, r2 int :: r1 > r2 ==> aliasBefore(l, g, r1, l, g, r2)
 @*/
